@@ -419,7 +419,7 @@ func runCase(c *Case) (int, string, []string) {
 				r.a.Send(tc, &remote.TestMessage{Data: []byte(fmt.Sprintf("c:%d:%d", op.K, j))})
 			}
 		case "ask":
-			v, err := r.a.Request(echo, &actor.Ping{From: r.senderPID}, 5*time.Second).Result()
+			v, err := r.a.Request(echo, &actor.Ping{From: r.senderPID}, 20*time.Second).Result()
 			if err != nil {
 				return i, "a request to an actor on the reachable peer got no reply: " + err.Error(), names
 			}
@@ -464,6 +464,13 @@ func runCase(c *Case) (int, string, []string) {
 		var what string
 		for {
 			ok, what = r.matches(op.After, answered)
+			// "operations are issued after the router has handled the unreachable event": a writer that shuts down tells
+			// the router and the event stream first and leaves the registry a moment later; the next operation waits
+			// for that too (a send issued in between finds the old writer still registered under the id the new one
+			// needs: see DESIGN.md section 8)
+			if ok && op.After.Stream != "live" && r.a.Registry.GetPID("stream", r.addrB) != nil {
+				ok, what = false, "the stream writer for the peer is still registered although the model has none"
+			}
 			if ok || time.Now().After(deadline) {
 				break
 			}
